@@ -168,7 +168,7 @@ def handle : P String := do
   let shape ← shapeP 64
   let sizes ← natList
   let classes := classesOf pat
-  let ccopy := op == "ccopy" || op == "ccopyto"
+  let ccopy := ["ccopy", "ccopyto", "flatcopy", "flatcopyinv", "flatrtinv"].contains op
   let datas ← many classes.length ratList
   -- objects per class (for component_copy the second class is a plain DenseVector)
   let objs : List (MVec Rat) := datas.zipIdx.map fun (d, ci) =>
@@ -204,6 +204,16 @@ def handle : P String := do
   | "minabs" => pure (optScalar (MVec.minAbsElement (obj 0)))
   | "max" => pure (optScalar (MVec.maxElement (obj 0)))
   | "min" => pure (optScalar (MVec.minElement (obj 0)))
+  | "flatcopy" =>
+    pure (showRes [] ((objs.set (cls 1) (MVec.dense (MVec.flatCopy (obj 0) (obj 1).flatten))).map MVec.flatten))
+  | "flatcopyinv" => pure (finish [] (MVec.flatCopyInv (obj 0) (obj 1).flatten))
+  | "flatconvert" => pure (noChange (MVec.flatConvert 0 (obj 0)))
+  | "flatrt" =>
+    let f := MVec.flatCopy (obj 0) (List.replicate (obj 0).podSize 0)
+    pure (showRes f ((objs.set (cls 1) (MVec.flatCopyInv (obj 1) f)).map MVec.flatten))
+  | "flatrtinv" =>
+    let a' := MVec.flatCopyInv (obj 0) (obj 1).flatten
+    pure (finish (MVec.flatCopy a' (List.replicate a'.podSize 0)) a')
   | _ =>
     match shape with
     | .blocked b =>
@@ -221,6 +231,11 @@ def handle : P String := do
       | "minabsb" => pure (optVec (minAbsBlockedK b x0))
       | "maxb" => pure (optVec (maxBlockedK b x0))
       | "minb" => pure (optVec (minBlockedK b x0))
+      | "denseblocked" =>
+        -- convert between DenseVector and DenseVectorBlocked re-interprets the same pod array
+        let n : Rat := (x0.length : Nat)
+        let nb : Rat := (x0.length / b : Nat)
+        pure (noChange (x0 ++ x0 ++ x0 ++ x0 ++ [n, nb]))
       | "ccopy" =>
         match componentCopyK b a.num.toNat x0 x1 with
         | some r => pure (finish [] (.blocked b r))
